@@ -12,6 +12,7 @@ import (
 	"sort"
 	"strconv"
 	"strings"
+	"sync"
 	"time"
 	"unicode/utf8"
 )
@@ -401,4 +402,53 @@ func indexOf[T comparable](xs []T, v T) int {
 		}
 	}
 	return -1
+}
+
+
+var t12global sync.Map
+
+// sync.Map (engine model x_syncmap.go against the real implementation): a seeded sequence of operations on a
+// local and a package-level map, every result observed.
+func T12_syncmap() {
+	var local sync.Map
+	for i := 0; i < 10; i++ {
+		m := &local
+		if vU8()%2 == 1 {
+			m = &t12global
+		}
+		k := strconv.Itoa(int(vU8() % 3))
+		v := int(vU8() % 4)
+		switch vU8() % 8 {
+		case 0:
+			x, ok := m.Load(k)
+			vObserve("load", fmt.Sprint(x, ok))
+		case 1:
+			m.Store(k, v)
+		case 2:
+			x, loaded := m.LoadOrStore(k, v)
+			vObserve("loadorstore", fmt.Sprint(x, loaded))
+		case 3:
+			x, loaded := m.LoadAndDelete(k)
+			vObserve("loadanddelete", fmt.Sprint(x, loaded))
+		case 4:
+			m.Delete(k)
+		case 5:
+			x, loaded := m.Swap(k, v)
+			vObserve("swap", fmt.Sprint(x, loaded))
+		case 6:
+			vObserve("cas", m.CompareAndSwap(k, v, v+1))
+		case 7:
+			vObserve("cad", m.CompareAndDelete(k, v))
+		}
+	}
+	for _, m := range []*sync.Map{&local, &t12global} {
+		var keys []string
+		m.Range(func(k, v any) bool {
+			keys = append(keys, k.(string)+"="+strconv.Itoa(v.(int)))
+			return true
+		})
+		sort.Strings(keys)
+		vObserve("final", strings.Join(keys, ","))
+	}
+	t12global.Clear()
 }
